@@ -1,5 +1,5 @@
 (* C16 -- theorems about the model for ALL configurations and event lists. *)
-From Coq Require Import List NArith Bool Lia.
+From Coq Require Import List NArith Arith Bool Lia.
 Import ListNotations.
 From TV Require Import Lib.Obs C16.Model C16.Spec C16.Run C16.Inv C16.Inv2 C16.Inv3 C16.Sound C16.Codec.
 
@@ -20,7 +20,8 @@ Proof. intros c evs. induction evs as [|x evs IH]; intros m e; cbn [app final_fr
 (* ---- frames on the wire ---- *)
 Lemma model_close_once_then_silent : forall c evs l1 cc r l2,
   items_of (run c evs) = l1 ++ ISent (SClose cc r) :: l2 ->
-  existsb is_sclose l1 = false /\ existsb is_sclose l2 = false /\ existsb is_data l2 = false.
+  existsb is_sclose l1 = false /\ existsb is_sclose l2 = false /\ existsb is_data l2 = false
+  /\ existsb is_sping l2 = false.
 Proof. intros c evs l1 cc r l2. apply (accepted_close_once_then_silent evs). apply model_satisfies_monitor. Qed.
 
 Lemma model_echo : forall c evs l1 p l2,
@@ -91,6 +92,41 @@ Proof.
   rewrite <- S3, P8, Hd. reflexivity.
 Qed.
 
+(* an asynchronous on_message that fails is handled like a synchronous one that raises:
+   the connection is aborted and the close notification is delivered *)
+Lemma model_failed_async_on_message_aborts_and_notifies : forall c evs,
+  s_loop (fst (final c evs)) = LBlocked ->
+  s_sc (fst (final c (evs ++ [EMsgFail]))) = true
+  /\ existsb is_onclose (items_of (run c (evs ++ [EMsgFail]))) = true.
+Proof.
+  intros c evs Hl.
+  assert (Hd : s_loop (fst (final c (evs ++ [EMsgFail]))) = LDone
+               /\ s_sc (fst (final c (evs ++ [EMsgFail]))) = true).
+  { destruct (reach c evs) as (a0 & R0 & (Hb0 & Hd0 & _)).
+    destruct (abort_ok _ _ Hb0 Hd0) as (_ & _ & Asc & _).
+    unfold final. rewrite final_from_snoc. fold (final c evs).
+    destruct (final c evs) as [s q]. cbn [fst] in *.
+    unfold step. cbn [act]. rewrite Hl.
+    assert (S1 : s_sc (set_loop LRead (abort s)) = true) by (destruct (abort s); cbn in *; auto).
+    assert (S2 : s_loop (set_loop LRead (abort s)) = LRead) by (destruct (abort s); reflexivity).
+    pose proof (settle_down_finishes (c_role c) _ q S1 S2) as F.
+    assert (G : s_sc (fst (fst (settle (c_role c) (set_loop LRead (abort s)) q))) = true).
+    { destruct (reach c evs) as (a1 & _ & _). clear a1.
+      assert (Jb a0 (set_loop LRead (abort s)) = true /\ Jd a0 (set_loop LRead (abort s))) as (B1 & B2).
+      { destruct (abort_ok _ _ Hb0 Hd0) as (Ab & Ad & _ & _ & Alo & _).
+        rewrite Hl in Alo. revert Ab Ad Alo. generalize (abort s) as s'. intros s' Ab Ad Alo.
+        destruct s'; cbn in Alo; subst; split; auto. }
+      destruct (settle_ok (c_role c) q a0 _ B1 B2) as (a2 & S).
+      destruct (settle (c_role c) (set_loop LRead (abort s)) q) as [[s2 q2] o2].
+      destruct S as (_ & _ & _ & _ & _ & S6 & _). cbn [fst]. auto. }
+    destruct (settle (c_role c) (set_loop LRead (abort s)) q) as [[s2 q2] o2]. cbn [fst] in *. auto. }
+  destruct Hd as (Hd & Hs). split; auto.
+  destruct (reach c (evs ++ [EMsgFail])) as (a & R & (Hb & _)).
+  destruct (accepted_summary _ _ _ R) as (_ & _ & S3 & _).
+  destruct (Jb_parts _ _ Hb) as (_ & _ & _ & _ & _ & _ & _ & P8 & _).
+  rewrite <- S3, P8, Hd. reflexivity.
+Qed.
+
 (* ---- tearing the TCP connection down ---- *)
 Lemma model_both_closed_tcp_down : forall c evs,
   existsb is_hclose (items_of (run c evs)) = true ->
@@ -138,17 +174,24 @@ Proof.
   apply F2. destruct HI as (_ & _ & Hsc & _). rewrite Hsc. exact Hs.
 Qed.
 
-(* ---- write_message ---- *)
+(* ---- the application's calls: write_message, ping(), close() ---- *)
+Lemma model_api_calls : forall c evs e,
+  counts (snd (step c e (final c evs))) = expected_b e (closing_obs evs (run c evs)).
+Proof.
+  intros c evs e.
+  destruct (reach c evs) as (a & R & HI).
+  destruct (step_ok c e a (final c evs) HI) as (a' & M & _).
+  destruct (mon_step_facts _ _ _ _ _ M) as (_ & _ & F3).
+  rewrite F3. unfold expected. rewrite (closing_summary _ _ _ R). reflexivity.
+Qed.
+
 Lemma model_write_after_closing_fails : forall c evs,
   closing_obs evs (run c evs) = true ->
   let its := snd (step c EWrite (final c evs)) in
   cnt is_wok its = 0%nat /\ cnt is_werr its = 1%nat /\ cnt is_data its = 0%nat.
 Proof.
-  intros c evs Hc its. subst its.
-  destruct (reach c evs) as (a & R & HI).
-  destruct (step_ok c EWrite a (final c evs) HI) as (a' & M & _).
-  destruct (mon_step_facts _ _ _ _ _ M) as (_ & _ & F3 & _).
-  apply F3; auto. rewrite (closing_summary _ _ _ R). exact Hc.
+  intros c evs Hc its. subst its. pose proof (model_api_calls c evs EWrite) as H.
+  rewrite Hc in H. cbn in H. unfold counts in H. injection H as H1 H2 H3 _ _ _. auto.
 Qed.
 
 Lemma model_write_before_closing_succeeds : forall c evs,
@@ -156,11 +199,43 @@ Lemma model_write_before_closing_succeeds : forall c evs,
   let its := snd (step c EWrite (final c evs)) in
   cnt is_wok its = 1%nat /\ cnt is_werr its = 0%nat /\ cnt is_data its = 1%nat.
 Proof.
-  intros c evs Hc its. subst its.
-  destruct (reach c evs) as (a & R & HI).
-  destruct (step_ok c EWrite a (final c evs) HI) as (a' & M & _).
-  destruct (mon_step_facts _ _ _ _ _ M) as (_ & _ & _ & F4).
-  apply F4; auto. rewrite (closing_summary _ _ _ R). exact Hc.
+  intros c evs Hc its. subst its. pose proof (model_api_calls c evs EWrite) as H.
+  rewrite Hc in H. cbn in H. unfold counts in H. injection H as H1 H2 H3 _ _ _. auto.
+Qed.
+
+Lemma model_ping_raises_iff_closing : forall c evs,
+  let its := snd (step c EAppPing (final c evs)) in
+  if closing_obs evs (run c evs)
+  then cnt is_pok its = 0%nat /\ cnt is_perr its = 1%nat
+  else cnt is_pok its = 1%nat /\ cnt is_perr its = 0%nat.
+Proof.
+  intros c evs its. subst its. pose proof (model_api_calls c evs EAppPing) as H.
+  destruct (closing_obs evs (run c evs)); cbn in H; unfold counts in H; injection H as _ _ _ H4 H5 _; auto.
+Qed.
+
+(* close() raises exactly when it would have to build a Close frame from unencodable arguments ... *)
+Lemma model_close_raises_iff_unencodable : forall c evs code reason,
+  cnt is_cerr (snd (step c (ELocalClose code reason) (final c evs)))
+  = if negb (closing_obs evs (run c evs)) && negb (close_args_ok code reason) then 1%nat else 0%nat.
+Proof.
+  intros c evs code reason. pose proof (model_api_calls c evs (ELocalClose code reason)) as H.
+  cbn [expected_b] in H.
+  destruct (negb (closing_obs evs (run c evs)) && negb (close_args_ok code reason));
+    unfold counts, zeros in H; injection H as _ _ _ _ _ H6; auto.
+Qed.
+
+(* ... and then it has changed nothing *)
+Lemma model_close_that_raises_changes_nothing : forall c code reason m,
+  In ICloseErr (snd (act c (ELocalClose code reason) m)) -> fst (act c (ELocalClose code reason) m) = m.
+Proof.
+  intros c code reason [s q] H. cbn [act] in *. unfold local_close in *.
+  destruct (s_hconn s).
+  - destruct (negb (s_st s) && negb (s_sc s) && negb (close_args_ok code reason)).
+    + reflexivity.
+    + exfalso. unfold proto_close in H.
+      destruct (s_st s); [|destruct (s_sc s)]; cbn in H;
+        repeat match goal with H : _ \/ _ |- _ => destruct H end; try discriminate; auto.
+  - reflexivity.
 Qed.
 
 (* ---- timers never race: the closing timer is only armed after periodic_ping is cancelled ---- *)
